@@ -16,14 +16,21 @@ extern "C" {
 unsigned g_next, g_start0, g_end; int g_ok, g_lines, g_bad_format;
 unsigned short __CPROVER_uninterpreted_mem16(unsigned a);
 }
+#if LISTCPU == 9900
 uint16_t Memory::read16(uint32_t a) { return __CPROVER_uninterpreted_mem16(a); }
 uint8_t Memory::read8(uint32_t a) { return (uint8_t)(__CPROVER_uninterpreted_mem16(a & ~1u) >> ((a & 1) ? 0 : 8)); }
+#else
+extern "C" unsigned char __CPROVER_uninterpreted_mem8(unsigned a);
+uint8_t Memory::read8(uint32_t a) { return __CPROVER_uninterpreted_mem8(a); }
+uint16_t Memory::read16(uint32_t a) { return (uint16_t)(__CPROVER_uninterpreted_mem8(a) | (__CPROVER_uninterpreted_mem8(a + 1) << 8)); }
+#endif
 int Memory::read_debug(uint32_t a) { return nondet_int(); }
 /* string-abstract formatting contracts (the text of the instruction is decided in C08) */
 extern "C" char *strcat(char *d, const char *s) { return d; }
 extern "C" char *strcpy(char *d, const char *s) { d[0] = 0; return d; }
 extern "C" int snprintf(char *d, size_t n, const char *f, ...) { d[0] = 0; return 0; }
 extern "C" int sprintf(char *d, const char *f, ...) { d[0] = 0; return 0; }
+#if LISTCPU == 9900
 /* ghost reader of the listing: one overload per argument shape the formatter uses */
 static void line(unsigned addr, unsigned value)
 {
@@ -52,6 +59,41 @@ int disasm_tms9900(Memory *memory, uint32_t address, char *instruction, int leng
 #include "gen/list_output_tms9900.inc"
 #undef fprintf
 #undef printf
+#define CALL_LIST(ctx, start, end) list_output_tms9900(ctx, start, end)
+#define MAXINSN 6
+#elif LISTCPU == 430
+/* msp430 / msp430x: list_output_msp430_both (static, extracted verbatim); words are read bytewise, little endian */
+static void line(unsigned addr, unsigned value)
+{
+  if (addr != g_next) g_ok = 0;
+  if (value != ((unsigned)__CPROVER_uninterpreted_mem8(addr) | ((unsigned)__CPROVER_uninterpreted_mem8(addr + 1) << 8))) g_ok = 0;
+  g_next += 2; g_lines++;
+}
+static int is_line_fmt(const char *f) { return f[0] == '0' && f[1] == 'x' && f[2] == '%' && f[8] == '0' && f[9] == 'x' && f[10] == '%'; }
+static int vf_printf(FILE *o, const char *f) { if (!(f[0] == '\n' && f[1] == 0)) g_bad_format = 1; return 0; }
+static int vf_printf(FILE *o, const char *f, uint32_t a, int v) { if (is_line_fmt(f) && f[14] == '\n') line(a, (unsigned)v); else g_bad_format = 1; return 0; }
+static int vf_printf(FILE *o, const char *f, uint32_t a, int v, char *s) { if (is_line_fmt(f) && f[14] == ' ') line(a, (unsigned)v); else g_bad_format = 1; return 0; }
+static int vf_printf(FILE *o, const char *f, uint32_t a, int v, char *s, int c) { if (is_line_fmt(f) && f[14] == ' ') line(a, (unsigned)v); else g_bad_format = 1; return 0; }
+#define fprintf vf_printf
+#define printf(...) (0)
+#include "disasm/msp430.h"
+/* disasm_msp430 / disasm_msp430x are replaced by their contract (C08/disasm_msp430 on the real code): a length of 2..8 bytes, even */
+static int dis_contract(char *instruction, int length, int *cycles_min, int *cycles_max)
+{
+  OBL(length == 128 && __CPROVER_OBJECT_SIZE(instruction) - __CPROVER_POINTER_OFFSET(instruction) >= 128, "C18.listing: the disassembler is given the formatter's 128-byte text buffer");
+  instruction[0] = 0;
+  *cycles_min = nondet_int(); *cycles_max = nondet_int();
+  int k = nondet_int() & 3;
+  return 2 + 2 * k;
+}
+int disasm_msp430(Memory *memory, uint32_t address, char *instruction, int length, int flags, int *cycles_min, int *cycles_max) { return dis_contract(instruction, length, cycles_min, cycles_max); }
+int disasm_msp430x(Memory *memory, uint32_t address, char *instruction, int length, int flags, int *cycles_min, int *cycles_max) { return dis_contract(instruction, length, cycles_min, cycles_max); }
+#include "gen/list_output_msp430_both.inc"
+#undef fprintf
+#undef printf
+#define CALL_LIST(ctx, start, end) list_output_msp430_both(ctx, start, end, (nondet_int() & 1) != 0)
+#define MAXINSN 8
+#endif
 static long g_list_file[4];
 extern "C" void h_listfmt()
 {
@@ -59,9 +101,9 @@ extern "C" void h_listfmt()
   unsigned start = nondet_uint(), end = nondet_uint();
   ASSUME(start <= end && end < (1u << 31) && (start & 1) == 0);
   g_start0 = start; g_end = end; g_next = start; g_ok = 1; g_lines = 0; g_bad_format = 0;
-  list_output_tms9900(&ctx, start, end);
+  CALL_LIST(&ctx, start, end);
   OBL(g_ok, "C18.listing: every line shows the next word of the range with the value memory holds at that address (in order, no gap, no repeat)");
   OBL(!g_bad_format, "C18.listing: every line is written with one of the formatter's formats");
-  OBL(g_next >= end && g_next - end < 6 && g_lines == (int)((g_next - start) / 2), "C18.listing: the listing covers the range up to the first instruction boundary at or after its end");
+  OBL(g_next >= end && g_next - end < MAXINSN && g_lines == (int)((g_next - start) / 2), "C18.listing: the listing covers the range up to the first instruction boundary at or after its end");
   CANARY("h_listfmt end");
 }
